@@ -29,12 +29,21 @@ package pruner
 //@   logged
 //@   modifies *
 
+// "Is this block younger than the window?" depends on the wall clock: an input, recorded in ghost state.
+//@ ghost var lastWithin bool
+//@ func withinTimeWindow
+//@   trusted
+//@   logged
+//@   assigns lastWithin
+//@   ensures lastWithin == result
+
 //@ func (*Pruner).applyTimeFloor
 //@   props C16
 //@   arith int
 //@   requires p != nil
 //@   ensures lowers: result <= standardFloor
 //@   ensures off: p.minAge == 0 ==> result == standardFloor
+//@   ensures on: p.minAge != 0 ==> result == min(p.latestSampledHeight, standardFloor)
 
 // A new block: prune only below min(l1Head, head) - retained, and never wrap.
 //@ func (*Pruner).onNewBlock
@@ -42,9 +51,11 @@ package pruner
 //@   arith int
 //@   requires p != nil && block != nil && block.Header != nil
 //@   modifies *
-//@   assigns l1HeadRead, calls_pruneUpto, arg_pruneUpto_oldestBlockToKeep, arg_pruneUpto_ctx
+//@   assigns l1HeadRead, lastWithin, calls_pruneUpto, arg_pruneUpto_oldestBlockToKeep, arg_pruneUpto_ctx, calls_withinTimeWindow, arg_withinTimeWindow_ts, arg_withinTimeWindow_window
 //@   ensures once: calls_pruneUpto == old(calls_pruneUpto) || calls_pruneUpto == old(calls_pruneUpto) + 1
 //@   ensures floor: calls_pruneUpto == old(calls_pruneUpto) + 1 ==> arg_pruneUpto_oldestBlockToKeep + old(p.numRetainedBlocks) <= old(block.Number) && old(block.Number) < l1HeadRead
+//@   ensures minage_asked: calls_pruneUpto == old(calls_pruneUpto) + 1 && old(p.minAge) > 0 ==> calls_withinTimeWindow == old(calls_withinTimeWindow) + 1 && arg_withinTimeWindow_ts == old(block.Timestamp) && arg_withinTimeWindow_window == old(p.minAge)
+//@   ensures minage_floor: calls_pruneUpto == old(calls_pruneUpto) + 1 && old(p.minAge) > 0 && lastWithin ==> arg_pruneUpto_oldestBlockToKeep <= old(p.latestSampledHeight)
 
 // A new L1 head: same bound with the roles swapped.
 //@ func (*Pruner).onNewL1Head
